@@ -12,6 +12,8 @@ mod refmodel;
 mod refmodel2;
 mod lockstep;
 mod single;
+mod supervise;
+mod envelope;
 mod spec;
 mod footprint;
 mod exec;
@@ -76,6 +78,10 @@ fn main() {
     }
     let prop = args[1].clone();
     install_panic_hook();
+    if !supervise::is_child() && args.len() >= 3 && (args[2] == "quick" || args[2] == "thorough") {
+        // supervising parent: keeps the real stdout for the child
+        std::process::exit(supervise::supervise(&args[1..].to_vec(), &prop));
+    }
     exec::silence_stdout_of_pushr();
 
     let seed: u64 = std::env::var("VERIF_SEED").ok().and_then(|s| s.trim().parse::<i64>().ok()).map(|v| v as u64).unwrap_or(1);
@@ -95,6 +101,24 @@ fn main() {
         props::c04::digest_file(args.get(3).map(|s| s.as_str()).unwrap_or(""));
         std::process::exit(0);
     }
+    if args[2] == "--exec-journal" {
+        supervise::set_rlimit_as(supervise::AS_LIMIT_CONFIRM);
+        let txt = std::fs::read_to_string(args.get(3).map(|s| s.as_str()).unwrap_or("")).unwrap_or_default();
+        let v: Value = serde_json::from_str(&txt).unwrap_or(Value::Null);
+        match supervise::exec_journalled(&v) {
+            Ok(()) => std::process::exit(0),
+            Err(e) => {
+                exec::say(&format!("exec-journal: {}", e));
+                std::process::exit(3);
+            }
+        }
+    }
+    if !supervise::is_child() && (args[2] == "quick" || args[2] == "thorough") {
+        std::process::exit(supervise::supervise(&args[1..].to_vec(), &prop));
+    }
+    if supervise::is_child() {
+        supervise::set_rlimit_as(supervise::AS_LIMIT_BYTES);
+    }
     if args[2] == "--replay" {
         let file = args.get(3).expect("--replay FILE");
         let txt = std::fs::read_to_string(file).expect("read replay file");
@@ -102,6 +126,9 @@ fn main() {
         let ctx = Ctx { prop: prop.clone(), tier: Tier::Quick, seed, threads, known: Arc::new(BTreeSet::new()) };
         let sub = v.get("subcheck").and_then(|s| s.as_str()).unwrap_or("").to_string();
         let case = v.get("case").cloned().unwrap_or(Value::Null);
+        if sub == "crash" {
+            std::process::exit(supervise::replay_crash(&prop, file, &case));
+        }
         match props::replay(&ctx, &sub, &case) {
             Ok(()) => {
                 exec::say(&format!("replay: property={} subcheck={} holds on this case", prop, sub));
